@@ -21,6 +21,10 @@ def obligations(tier):
         ch("sami_dfxp_reuse", "harness.C10_readers", timeout=T, functions=("SAMIReader._translate_lang",),
            bounds="used vs fresh SAMIReader on 2 syncs with symbolic instants and 5 shapes each"),
     ]
+    obs.append(ch("sami_lang_layout_order", "harness.C10_readers", timeout=T, functions=("pycaption.sami (every set rewritten to NondetSet)", "SAMIReader.read (per-language layout selection)"),
+                  bounds="two stylesheet classes declaring the same language with different alignments, in both document orders; an arbitrary set iteration order against insertion order"))
+    obs.append(ch("markup_results_disjoint", "harness.C10_readers", timeout=T, functions=("DFXPReader.read", "SAMIReader.read", "LayoutAwareDFXPParser", "LayoutInfoScraper"), exhaustive=True,
+                  bounds="every pair out of 4 caption sets read from DFXP and SAMI documents (with and without explicit positioning): no mutable object (layout, alignment, size, dict, list, node) is reachable from both"))
     return obs
 
 
